@@ -163,3 +163,12 @@ func (c *Canary) VerifStates() int {
 
 	return n
 }
+
+// VerifClose releases the epoll instance and the listener's end of the socketpair.
+func (c *Canary) VerifClose() {
+	for _, fd := range c.descriptors {
+		syscall.Close(int(fd))
+	}
+
+	syscall.Close(c.epfd)
+}
